@@ -87,6 +87,20 @@ CHECKS = {
             "Success outcomes are not compared with a reference here. Model-file read faults precede parsing and are "
             "not judged. SimFS, actor and exec-fault wrappers are simulator stubs.",
             "DESIGN.md 5/C13"),
+    "C11": ("histsim_parse", "exploration",
+            "deterministic simulation of process histories: seeded sequences of parse / failed-parse / load / CLI "
+            "operations on live Parser objects and on the simulated disk, over documents whose true line numbers are "
+            "recorded by the renderer; located model faults (load-time, validation, execute-time) whose line is known "
+            "by construction",
+            "Seeded exploration of histories (what the same Parser object or process parsed before, including parses "
+            "that failed half-way) x layouts (blank/comment lines, trailing comments, multi-line arguments and lists, "
+            "LF/CRLF) x located faults. Every command, argument and list element of every parse tree must carry its "
+            "true line; every load-time/validation error must carry a line of the offending command or argument; "
+            "execute-time errors none or a line of the failing command; the CLI's --> line must be the text of such a "
+            "line.",
+            "Renderer ledger is the line truth (head `R = Cmd(` and `name =` on one line each; no CR-only endings). "
+            "Parse-tree content is C10's business and only recorded. SimFS for the CLI.",
+            "DESIGN.md 5/C11"),
 }
 
 PENDING = {}
